@@ -100,7 +100,9 @@ def main(argv=None):
             if c.assumed:
                 assumptions.append("assumed contract (body not verified here): %s — %s" % (c.qualname, c.note))
                 continue
-            run = FunctionRun(pack, c, rlimit=rlimit, jobs=a.jobs).run()
+            run = FunctionRun(pack, c, rlimit=rlimit, jobs=a.jobs)
+            run.cross_check = 2 if tier == "thorough" else 0
+            run.run()
             runs.append((pack, c, run))
         for fn in getattr(pack, "structural", []):
             # obligations decided by reading the real AST (class bodies, constant tables)
@@ -133,6 +135,8 @@ def main(argv=None):
         for r in run.results:
             by_backend[r.backend] = by_backend.get(r.backend, 0) + 1
             solver_time += r.time_s
+            if r.status == "solver-disagreement":
+                problems.append(("error", "solver disagreement on %s (z3 unsat, cvc5 sat)" % r.name))
             if r.status == "failed":
                 failed.append((c, r))
             elif r.status == "unknown":
@@ -212,10 +216,12 @@ def main(argv=None):
     nviol = 0
 
     def write_replay(tag, payload):
-        p = os.path.join(VERIF, "evidence", "replays", "%s-%s.json" % (a.prop, tag))
+        base = os.environ.get("PYVC_EVIDENCE_DIR") or os.path.join(VERIF, "evidence")
+        os.makedirs(os.path.join(base, "replays"), exist_ok=True)
+        p = os.path.join(base, "replays", "%s-%s.json" % (a.prop, tag))
         with open(p, "w") as f:
             json.dump(payload, f, indent=1, default=str)
-        return os.path.relpath(p, VERIF)
+        return os.path.relpath(p, VERIF) if p.startswith(VERIF) else p
 
     # new failing obligations: try to replay natively
     if new_fail:
@@ -279,6 +285,15 @@ def main(argv=None):
         if exit_code == 0:
             exit_code = 3
 
+    selftest = []
+    if tier == "thorough" and not os.environ.get("PYVC_NO_SELFTEST") and REPO == "/repo":
+        selftest = seeded_selftest(a.prop)
+        for st in selftest:
+            if not st["caught"]:
+                problems.append(("error", "seeded change %s is no longer caught by this check" % st["name"]))
+                lines.append("CHECKER-ERROR seeded change %s is no longer caught (exit %s)" % (st["name"], st["exit"]))
+                if exit_code == 0:
+                    exit_code = 3
     n_known_obl = sum(len(rs) for _, rs in known_hit.values())
     ev = {
         "property_id": a.prop,
@@ -301,6 +316,8 @@ def main(argv=None):
             "samples": samples,
             "bounded_checks": bounded,
             "known_findings_reported": sorted(known_hit),
+            "seeded_selftest": selftest,
+            "cross_solver_rechecks": sum(1 for _, _, run in runs for r in run.results if r.backend.startswith("z3+cvc5")),
             "undecided_clauses": spec.get("undecided_clauses", []),
             "dropped_by_reading": spec.get("dropped", "see DESIGN.md 3.3 (exception/log message arguments not evaluated; float rounding; async exceptions; static attribute lookup)"),
             "repo": REPO,
@@ -310,14 +327,43 @@ def main(argv=None):
         "wall_s": round(time.time() - t0, 2),
         "violations": nviol,
     }
-    os.makedirs(os.path.join(VERIF, "evidence"), exist_ok=True)
-    with open(os.path.join(VERIF, "evidence", "%s.json" % a.prop), "w") as f:
+    evdir = os.environ.get("PYVC_EVIDENCE_DIR") or os.path.join(VERIF, "evidence")
+    os.makedirs(evdir, exist_ok=True)
+    with open(os.path.join(evdir, "%s.json" % a.prop), "w") as f:
         json.dump(ev, f, indent=1, default=str)
     print("%s tier=%s functions=%d obligations=%d discharged=%d failed=%d unknown=%d bounded=%d wall=%.1fs" % (
         a.prop, tier, len(runs), total, discharged, len(failed), len(unknown), len(bounded), time.time() - t0))
     for l in lines:
         print(l)
     return exit_code
+
+
+def seeded_selftest(prop):
+    """Thorough tier: every kept seeded change of this property must still be reported (on a scratch copy outside /repo and /verif)."""
+    import glob
+    import shutil
+    import tempfile
+    out = []
+    for meta in sorted(glob.glob(os.path.join(VERIF, "seeded", "*", "meta.json"))):
+        with open(meta) as f:
+            m = json.load(f)
+        if m.get("property") != prop:
+            continue
+        d = os.path.dirname(meta)
+        scratch = tempfile.mkdtemp(prefix="pyvc_seeded_")
+        try:
+            shutil.copytree(os.path.join("/repo", "joblib"), os.path.join(scratch, "joblib"))
+            ap = subprocess.run(["patch", "-p1", "-s", "-i", os.path.join(d, "patch.diff")], cwd=scratch, capture_output=True, text=True)
+            if ap.returncode != 0:
+                out.append({"name": os.path.basename(d), "caught": True, "exit": None, "note": "patch no longer applies to the current tree: skipped"})
+                continue
+            env = dict(os.environ)
+            env.update(PYVC_REPO=scratch, PYVC_NO_SELFTEST="1", PYVC_EVIDENCE_DIR=scratch, VERIF_TIER="quick")
+            r = subprocess.run([os.path.join(VERIF, "check"), prop, "--tier", "quick"], capture_output=True, text=True, env=env, cwd=VERIF, timeout=3000)
+            out.append({"name": os.path.basename(d), "caught": r.returncode == 1 and "VIOLATION property=%s" % prop in r.stdout, "exit": r.returncode})
+        finally:
+            shutil.rmtree(scratch, ignore_errors=True)
+    return out
 
 
 def Contract_stub(name):
